@@ -4,6 +4,7 @@ import (
 	"bufio"
 	"fmt"
 	"io"
+	"os"
 	"os/exec"
 )
 
@@ -12,7 +13,17 @@ type ModelDriver struct {
 	cmd *exec.Cmd
 	in  io.WriteCloser
 	out *bufio.Reader
+	// Dump: when set, up to DumpPer (case, answer) pairs per suite are written there, one pair per
+	// two lines, for the replay of the same cases inside Coq (vm_compute on Run.run_case): the
+	// extraction and the OCaml glue are then checked against the definitions the theorems are about.
+	Dump     *os.File
+	DumpPer  int
+	DumpMax  int
+	dumpLeft int
 }
+
+// NextSuite resets the per-suite quota of dumped cases.
+func (m *ModelDriver) NextSuite() { m.dumpLeft = m.DumpPer }
 
 func StartModel(path string) (*ModelDriver, error) {
 	cmd := exec.Command(path)
@@ -42,6 +53,12 @@ func (m *ModelDriver) Run(c Tok) (Tok, error) {
 	line = line[:len(line)-1]
 	if len(line) > 0 && line[0] == '!' {
 		return Tok{}, fmt.Errorf("model driver: %s", line)
+	}
+	if m.Dump != nil && m.dumpLeft > 0 {
+		if cs := c.String(); len(cs)+len(line) <= m.DumpMax {
+			m.dumpLeft--
+			fmt.Fprintf(m.Dump, "%s\n%s\n", cs, line)
+		}
 	}
 	return ParseTok(line)
 }
